@@ -670,6 +670,9 @@ def gen_calldep_scripts(tier, seed, variant):
     # ... and inconsistent inside a window around the EMPTY bytes, insertions through the entry path
     for i in range(n // 2):
         out.append(gen_map.make_window_script(rng, f"xw{seed}_{i}"))
+    # HashTable: lookups / remove + re-insert / get_many_mut under ANOTHER element's hash
+    for i in range(n // 2):
+        out.append(gen_table.make_foreign_script(rng, f"xf{seed}_{i}"))
     # ... and the in-place rehash with swaps under a hasher that has just turned inconsistent
     for i in range(n // 2):
         out.append(gen_map.make_rehash_script(rng, f"xr{seed}_{i}", table=(i % 4 == 3), switch_rule=rng.choice(
@@ -702,6 +705,10 @@ def gen_layout_scripts(tier, seed, variant):
             out.append(gen_table.make_script(rng, f"y{seed}_{i}", kind=rng.choice(kinds)))
     for i in range(n // 4):
         out.append(gen_map.make_rehash_script(rng, f"yr{seed}_{i}", table=True, kind=rng.choice(["table-6", "table-12", "table-200", "table-a64", "table-drop", "table-plain"])))
+    # memory safety must survive panicking callbacks too (a destructor that panics while a Drain / IntoIter /
+    # clear / retain is releasing elements, a hasher that panics inside a rehash): the (callback x operation) matrix
+    for i in range(n // 4):
+        out.append(gen_map.make_fault_matrix_script(rng, f"yf{seed}_{i}", kind="map-drop"))
     return "".join(out)
 
 def gen_clone_scripts(tier, seed, variant):
